@@ -337,10 +337,19 @@ Fixpoint fail_index (m : mon) (i : Z) (tr : list (op * obs)) : option (Z * Z) :=
    demanded.  What still must hold: everything returned has been assigned an
    expiry that may still lie in the future and has not been removed by name
    since; a returned record was accepted for that peer and the peer may have a
-   live address; after GC nothing is stored beyond what may be live.  (No
-   numeric bound is demanded per peer: the per-peer cap evicts one entry per
-   insertion, so a peer whose connected addresses were moved to a finite class
-   legitimately stays above it.) *)
+   live address; after GC nothing is stored beyond what may be live; and
+   "memory stays bounded": with a per-peer cap c a peer never has more than
+   c + 2k addresses returned, k = the number of its addresses that ever were
+   given a connected TTL class (entries in a connected class are exempt from
+   the cap, and both books let an entry that LEAVES the connected class stay
+   above the cap: one insertion evicts one entry.  pstoreds, which counts the
+   peer's unconnected entries once per batch, additionally admits up to c new
+   entries in the batch that converts k connected ones — within the same
+   bound).  For a peer that never had a connected address the bound is the
+   cap itself.  WHICH addresses survive under a binding cap is not judged:
+   pstoremem evicts by Go map order on equal expiries, and the two books
+   choose victims differently (pstoreds only among the entries present before
+   the batch), so "exactly" and "same answers" have no well-defined target. *)
 Record uent := mkU { up : Z; ua : Z; uexp : Z; uconn : bool }.
 Record wmon := mkW { w_now : Z; w_ents : list uent; w_recs : list (Z * Z); w_fresh : bool }.
 
@@ -353,7 +362,7 @@ Fixpoint u_raise (p a exp : Z) (c over : bool) (l : list uent) : list uent :=
       else e :: u_raise p a exp c over r
   end.
 
-Definition w_step (rcap : Z) (w : wmon) (o : op) (x : obs) : option wmon :=
+Definition w_step (pcap rcap : Z) (w : wmon) (o : op) (x : obs) : option wmon :=
   let now := w_now w in
   let ulive p := filter (fun e => (up e =? p) && (now <? uexp e)) (w_ents w) in
   match o, x with
@@ -365,7 +374,9 @@ Definition w_step (rcap : Z) (w : wmon) (o : op) (x : obs) : option wmon :=
       Some (mkW now
               (fold_left (fun acc a =>
                             if 0 <? ttl then u_raise p a (now + ttl) (conn ttl) true acc
-                            else filter (fun e => negb ((up e =? p) && (ua e =? a))) acc)
+                            else (* removed by name: no longer live, but it stays on file (expired) so
+                                    that the peer's count of ever-connected addresses is not lowered *)
+                                 map (fun e => if (up e =? p) && (ua e =? a) then mkU p a now (uconn e) else e) acc)
                          (clean_addrs l) (w_ents w))
               (w_recs w) false)
   | OUpdate p old new, ONone =>
@@ -387,7 +398,9 @@ Definition w_step (rcap : Z) (w : wmon) (o : op) (x : obs) : option wmon :=
       else None
   | OAddrs p, OList v =>
       let lv := ulive p in
-      if forallb (fun a => existsb (fun e => ua e =? a) lv) v && nodup_b v
+      let k := zlen' (filter (fun e => (up e =? p) && uconn e) (w_ents w)) in
+      if forallb (fun a => existsb (fun e => ua e =? a) lv) v && nodup_b v &&
+         ((pcap <=? 0) || (zlen' v <=? pcap + 2 * k))
       then Some w else None
   | OGetRec p, OVal v =>
       if (v =? 0) || (existsb (fun r => (fst r =? p) && (snd r =? v)) (w_recs w)
@@ -405,18 +418,18 @@ Definition w_step (rcap : Z) (w : wmon) (o : op) (x : obs) : option wmon :=
   | _, _ => None
   end.
 
-Fixpoint weak_fail (rcap : Z) (w : wmon) (i : Z) (tr : list (op * obs)) : option (Z * Z) :=
+Fixpoint weak_fail (pcap rcap : Z) (w : wmon) (i : Z) (tr : list (op * obs)) : option (Z * Z) :=
   match tr with
   | [] => None
   | (o, x) :: r =>
-      match w_step rcap w o x with
-      | Some w' => weak_fail rcap w' (i + 1) r
+      match w_step pcap rcap w o x with
+      | Some w' => weak_fail pcap rcap w' (i + 1) r
       | None => Some (i, clause_of o)
       end
   end.
 
-Definition holds_weak (rcap : Z) (tr : list (op * obs)) : bool :=
-  match weak_fail rcap (mkW 0 [] [] false) 0 tr with None => true | Some _ => false end.
+Definition holds_weak (pcap rcap : Z) (tr : list (op * obs)) : bool :=
+  match weak_fail pcap rcap (mkW 0 [] [] false) 0 tr with None => true | Some _ => false end.
 
 (* diagnostic: 902 index clause store weak  (root: index opcode stale lapsed sfx result)* *)
 Definition monitor_case (l : list Z) : list Z :=
@@ -424,7 +437,7 @@ Definition monitor_case (l : list Z) : list Z :=
   | None => [ERR_MALFORMED; 0]
   | Some (c, tr) =>
       if binding c then
-        match weak_fail (c_rcap c) (mkW 0 [] [] false) 0 tr with
+        match weak_fail (c_pcap c) (c_rcap c) (mkW 0 [] [] false) 0 tr with
         | None => []
         | Some (i, cl) => [ERR_PROPERTY; i; cl; c_store c; 1]
         end
